@@ -86,10 +86,13 @@ def bootEff (n : Node) (x : Sw) : Sw :=
 /-- effect of `power_on` on one item -/
 def powerOnEff (n : Node) (x : Sw) : Sw := if n.startDur ≤ 0 then x.startUp else x
 
+/-- effect of `Node.offNow` (shut-down actions; immediate `power_on` when resetting) on one item -/
+def offNowEff (n : Node) (x : Sw) : Sw := if n.resetting then powerOnEff n x.shutDown else x.shutDown
+
 /-- effect of the shut-down half (on a node whose boot half is done) -/
 def shutEff (n : Node) (x : Sw) : Sw :=
   if n.shutCd > 0 then x
-  else if n.power = .shuttingDown then (if n.resetting then powerOnEff n x.shutDown else x.shutDown) else x
+  else if n.power = .shuttingDown then offNowEff n x else x
 
 /-- effect of the whole power phase of a tick on one item -/
 def powerEff (n : Node) (x : Sw) : Sw := shutEff n.bootPhase (bootEff n x)
@@ -125,27 +128,34 @@ theorem bootPhase_sws (n : Node) : n.bootPhase.sws = n.sws.map (bootEff n) := by
 theorem bootPhase_folders (n : Node) : n.bootPhase.folders = n.folders := by
   unfold Node.bootPhase; (repeat' split) <;> rfl
 
+theorem offNow_sws (n : Node) : n.offNow.sws = n.sws.map (offNowEff n) := by
+  unfold Node.offNow offNowEff
+  simp only []
+  split
+  · rename_i h; simp only [mapSws_resetting] at h
+    rw [powerOn_sws]; simp [powerOnEff, List.map_map, Function.comp_def, h]
+  · rename_i h; simp only [mapSws_resetting] at h
+    simp [h]
+theorem offNow_folders (n : Node) : n.offNow.folders = n.folders := by
+  unfold Node.offNow
+  simp only []
+  split
+  · rw [powerOn_folders]; rfl
+  · rfl
+
 theorem shutPhase_sws (n : Node) : n.shutPhase.sws = n.sws.map (shutEff n) := by
   unfold Node.shutPhase shutEff
   split
   · simp
   · split
-    · simp only []
-      split
-      · rename_i h; simp only [mapSws_resetting] at h
-        rw [powerOn_sws]; simp [powerOnEff, List.map_map, Function.comp_def, h]
-      · rename_i h; simp only [mapSws_resetting] at h
-        simp [h]
+    · exact offNow_sws n
     · simp
 theorem shutPhase_folders (n : Node) : n.shutPhase.folders = n.folders := by
   unfold Node.shutPhase
   split
   · rfl
   · split
-    · simp only []
-      split
-      · rw [powerOn_folders]; rfl
-      · rfl
+    · exact offNow_folders n
     · rfl
 
 theorem powerPhase_sws (n : Node) : n.powerPhase.sws = n.sws.map (powerEff n) := by
@@ -155,13 +165,16 @@ theorem powerPhase_folders (n : Node) : n.powerPhase.folders = n.folders := by
   unfold Node.powerPhase; rw [shutPhase_folders, bootPhase_folders]
 
 
-theorem powerOff_sws (n : Node) : n.powerOff.sws = n.sws.map (fun x => if n.shutDur ≤ 0 then x.shutDown else x) := by
+theorem powerOff_sws (n : Node) : n.powerOff.sws = n.sws.map (fun x => if n.shutDur ≤ 0 then offNowEff n x else x) := by
   unfold Node.powerOff
   split
-  · simp
+  · rw [offNow_sws]
   · split <;> simp
 theorem powerOff_folders (n : Node) : n.powerOff.folders = n.folders := by
-  unfold Node.powerOff; (repeat' split) <;> rfl
+  unfold Node.powerOff
+  split
+  · exact offNow_folders n
+  · split <;> rfl
 
 /-- the whole-node scan fans out in this tick (`m` = state after the power phase) -/
 theorem scanPhase_sws (m : Node) : m.scanPhase.sws = m.sws.map (fun x => if m.scanCd = 1 then x.scan else x) := by
@@ -222,7 +235,8 @@ theorem tick_folders (n : Node) : n.tick.folders = n.folders.map (folderTickEff 
 /-- effect of any operation on one software item -/
 def swEff (n : Node) : Op → Sw → Sw
   | .tick => tickEff n
-  | .shutdown | .reset => fun x => if n.power = .on then (if n.shutDur ≤ 0 then x.shutDown else x) else x
+  | .shutdown => fun x => if n.power = .on then (if n.shutDur ≤ 0 then offNowEff n x else x) else x
+  | .reset => fun x => if n.power = .on then (if n.shutDur ≤ 0 then powerOnEff n x.shutDown else x) else x
   | .startup => fun x => if n.power = .off then powerOnEff n x else x
   | .sw isApp name r => fun x => if n.power = .on then x.request isApp name r else x
   | .swSet name h => fun x => if x.name = name then x.setHealth h.toSwH else x
@@ -237,7 +251,7 @@ theorem apply_sws (n : Node) (op : Op) : (n.apply op).sws = n.sws.map (swEff n o
   case startup => split <;> simp [powerOn_sws]
   case reset =>
     split
-    · rw [powerOff_sws]
+    · rw [powerOff_sws]; rfl
     · simp
   case osScan => split <;> simp
   case sw => split <;> simp
@@ -601,6 +615,11 @@ theorem powerOnEff_rel (n : Node) (x : Sw) : Sw.PowerRel (powerOnEff n x) x := b
   · exact x.startUp_rel
   · exact .refl x
 
+theorem offNowEff_rel (n : Node) (x : Sw) : Sw.PowerRel (offNowEff n x) x := by
+  unfold offNowEff; split
+  · exact (powerOnEff_rel n x.shutDown).trans x.shutDown_rel
+  · exact x.shutDown_rel
+
 theorem powerEff_rel (n : Node) (x : Sw) : Sw.PowerRel (powerEff n x) x := by
   have hb : Sw.PowerRel (bootEff n x) x := by
     unfold bootEff
@@ -615,9 +634,7 @@ theorem powerEff_rel (n : Node) (x : Sw) : Sw.PowerRel (powerEff n x) x := by
     split
     · exact .refl y
     · split
-      · split
-        · exact (powerOnEff_rel m y.shutDown).trans y.shutDown_rel
-        · exact y.shutDown_rel
+      · exact offNowEff_rel m y
       · exact .refl y
   exact (hs _ _).trans hb
 
